@@ -838,6 +838,247 @@ def gen_pred_case(rng):
 
 
 # --------------------------------------------------------------------------
+# call sequences: one VersionPredicate object asked repeatedly, and repeated calls of the
+# module functions with equal arguments (the answers may not depend on what was asked before)
+
+def _exc_out(prefix, e):
+    return {'out': prefix + type(e).__name__, 've': isinstance(e, ValueError)}
+
+
+def run_calls(case):
+    """Execute the calls of a sequence case on the implementation, in order, in THIS interpreter.
+    `pred` (if any) is constructed once; every 'sat' call goes to that one object.
+    Returns one {'out': canonical text, 've': raised a ValueError?} per call ('init:…' alone if the
+    constructor raised) plus, last, the white-box pair list before/after when it can be located."""
+    m = vu()
+    outs = []
+    vp = None
+    if case.get('pred') is not None:
+        try:
+            vp = m.VersionPredicate(case['pred'])
+        except Exception as e:
+            return [_exc_out('init:', e)]
+    for c in case['calls']:
+        op = c['op']
+        try:
+            if op == 'sat':
+                r = vp.satisfied_by(c['ver'])
+                outs.append({'out': 'bool:%d' % r if type(r) is bool else 'other:' + repr(r)[:60]})
+            elif op == 'compat':
+                r = m.is_compatible(c['req'], c['cur'], same_major=c['same_major'])
+                outs.append({'out': 'bool:%d' % r if type(r) is bool else 'other:' + repr(r)[:60]})
+            else:
+                outs.append({'out': impl_conv(dict(c, fn=op))})
+                if outs[-1]['out'] in ('ValueError', 'TypeError') or outs[-1]['out'].endswith('Error'):
+                    outs[-1]['ve'] = outs[-1]['out'] == 'ValueError'
+        except Exception as e:
+            outs.append(_exc_out('sat:' if op == 'sat' else '', e))
+    return outs
+
+
+_FRESH = ("import sys, json; sys.path.insert(0, %r); import common; from props import C17; "
+          "print('\\n@@' + json.dumps(C17.run_calls(json.load(sys.stdin))))")
+
+
+def run_calls_fresh(case, timeout=20):
+    """the same in a fresh interpreter (same tree: VERIF_REPO is inherited); None if that did not work"""
+    import json
+    import subprocess
+    import tempfile
+    pc = tempfile.mkdtemp(prefix='verif-c17-pyc')
+    try:
+        p = subprocess.run([sys.executable, '-X', 'pycache_prefix=' + pc, '-c',
+                            _FRESH % os.path.join(common.VERIF, 'harness')],
+                           input=json.dumps(case).encode(), stdout=subprocess.PIPE, stderr=subprocess.PIPE,
+                           timeout=timeout, env=dict(os.environ, PYTHONDONTWRITEBYTECODE='1'))
+        for line in p.stdout.decode('utf-8', 'replace').splitlines():
+            if line.startswith('@@'):
+                return json.loads(line[2:])
+        return None
+    except Exception:
+        return None
+    finally:
+        import shutil
+        shutil.rmtree(pc, ignore_errors=True)
+
+
+def _call_key(c):
+    return repr(sorted((k, repr(v)) for k, v in c.items() if not k.endswith('struct')))
+
+
+def _show_call(c):
+    op = c['op']
+    if op == 'sat':
+        return 'satisfied_by(%r)' % c['ver']
+    if op == 'compat':
+        return 'is_compatible(%r, %r, same_major=%r)' % (c['req'], c['cur'], c['same_major'])
+    name = {'tuple': 'convert_version_to_tuple', 'int_s': 'convert_version_to_int', 'int_t': 'convert_version_to_int',
+            'str': 'convert_version_to_str'}[op]
+    arg = c.get('s', tuple(c['t']) if 't' in c else c.get('n'))
+    return '%s(%s)' % (name, repr(arg)[:60])
+
+
+def judge_calls(case, outs):
+    """the property on a whole sequence: every call answers as the property says for ITS arguments, and calls
+    with equal arguments answer equally, whatever was asked before.  None, or what fails."""
+    if outs is None:
+        return None
+    calls = case['calls']
+    P = pv()
+    if len(outs) == 1 and outs[0]['out'].startswith('init:'):
+        if case.get('malformed') and case['malformed'] != 'badcand':
+            return None if outs[0].get('ve') else 'VersionPredicate(%r) raised %s, not a ValueError' % (
+                case['pred'], outs[0]['out'][5:])
+        if case.get('comps') is not None and not case.get('malformed'):
+            return 'VersionPredicate(%r) raised %s' % (case['pred'], outs[0]['out'][5:])
+        return None
+    if case.get('malformed') and case['malformed'] != 'badcand' and any(c['op'] == 'sat' for c in calls):
+        return 'malformed predicate %r (%s) accepted' % (case['pred'], case['malformed'])
+    if len(outs) != len(calls):
+        return None
+    first = {}
+    for k, (c, o) in enumerate(zip(calls, outs)):
+        out = o['out']
+        want = None                     # expected canonical text, 'VE' for "must raise a ValueError", None = silent
+        if c['op'] == 'sat' and case.get('comps') is not None:
+            st = c.get('ver_struct')
+            valid = True
+            if st is None:
+                try:
+                    P.Version(c['ver'])
+                except P.InvalidVersion:
+                    valid = False
+            if not valid:
+                want = 'VE'
+            else:
+                kc = vkey(st, c['ver'])
+                bound = (lambda v: vkey(v, None)) if st is not None else (lambda v: P.Version(render_v(v)))
+                want = 'bool:%d' % all(OPF[op](kc, bound(v)) for op, v in case['comps'])
+        elif c['op'] == 'compat':
+            rs, cs = c.get('req_struct'), c.get('cur_struct')
+            valid = True
+            for st, text in ((rs, c['req']), (cs, c['cur'])):
+                if st is None:
+                    try:
+                        P.Version(text)
+                    except P.InvalidVersion:
+                        valid = False
+            if not valid:
+                want = 'VE'
+            else:
+                want = 'bool:%d' % (vkey(cs, c['cur']) >= vkey(rs, c['req']) and
+                                    (not c['same_major'] or vmajor(rs, c['req']) == vmajor(cs, c['cur'])))
+        elif c['op'] == 'tuple':
+            v = spec_verdict(c['s'])
+            if v is not None:
+                want = 'VE' if v[0] == 'raise' else 'ok:' + (','.join(big_str(x) for x in v[1]) or '-')
+        elif c['op'] == 'int_s':
+            v = spec_verdict(c['s'])
+            if v is not None and v[0] == 'raise':
+                want = 'VE'
+        if want == 'VE':
+            if not o.get('ve'):
+                return 'call %d of %d, %s: gave %s, must raise ValueError' % (k + 1, len(calls), _show_call(c), out)
+        elif want is not None and out != want:
+            return 'call %d of %d, %s: gave %s, the property says %s' % (k + 1, len(calls), _show_call(c), out, want)
+        key = _call_key(c)
+        if key in first and outs[first[key]]['out'] != out:
+            return 'call %d of %d, %s: gave %s, but call %d with the same arguments gave %s' % (
+                k + 1, len(calls), _show_call(c), out, first[key] + 1, outs[first[key]]['out'])
+        first.setdefault(key, k)
+    return None
+
+
+def gen_sat_sequence(rng):
+    """one predicate object and a sequence of candidates with immediate repeats, returns to earlier
+    candidates, alternation between satisfying and failing ones and invalid candidates in between"""
+    c = gen_pred_case(rng)
+    for _ in range(5):
+        if c['malformed'] in (None, 'badcand') or rng.random() < 0.1:
+            break
+        c = gen_pred_case(rng)
+    pool = [v for _, v in c['comps']] + [gen_vstruct(rng, near=c['comps'][0][1]) for _ in range(3)]
+    pool += [LOW_STRUCT, HIGH_STRUCT]
+    if c.get('ver_struct'):
+        pool.append(c['ver_struct'])
+    texts = {}
+
+    def pick():
+        if rng.random() < 0.12:
+            return {'op': 'sat', 'ver': rng.choice(BAD_VERSIONS), 'ver_struct': None}
+        i = rng.randrange(len(pool))
+        if i not in texts or rng.random() < 0.15:
+            texts[i] = render_v(pool[i], rng if rng.random() < 0.5 else None)
+        return {'op': 'sat', 'ver': texts[i], 'ver_struct': pool[i]}
+    calls = []
+    for _ in range(rng.randrange(3, 10)):
+        x = rng.random()
+        if calls and x < 0.35:
+            calls.append(dict(calls[-1]))
+        elif len(calls) > 1 and x < 0.55:
+            calls.append(dict(rng.choice(calls)))
+        else:
+            calls.append(pick())
+    return {'prop': 'seq', 'fn': 'seq', 'pred': c['pred'], 'comps': c['comps'],
+            'malformed': None if c['malformed'] == 'badcand' else c['malformed'], 'calls': calls}
+
+
+def gen_call_sequence(rng):
+    """repeated calls of the module functions over a small pool of arguments (equal arguments recur)"""
+    pool = []
+    for _ in range(rng.randrange(1, 4)):
+        g = gen_compat_case(rng)
+        pool.append({'op': 'compat', 'req': g['req'], 'cur': g['cur'], 'same_major': g['same_major'],
+                     'req_struct': g['req_struct'], 'cur_struct': g['cur_struct']})
+        if rng.random() < 0.5:      # the same two versions the other way round / with the other flag
+            pool.append(dict(pool[-1], same_major=not g['same_major']) if rng.random() < 0.5 else
+                        dict(pool[-1], req=g['cur'], cur=g['req'], req_struct=g['cur_struct'],
+                             cur_struct=g['req_struct']))
+    for _ in range(rng.randrange(1, 4)):
+        sct = conversion_string(rng)[0]
+        pool.append({'op': rng.choice(['tuple', 'int_s']), 's': sct})
+        if rng.random() < 0.5:
+            pool.append({'op': 'int_s' if pool[-1]['op'] == 'tuple' else 'tuple', 's': sct})
+    t = comp_tuple(rng, in_domain=rng.random() < 0.7)
+    pool.append({'op': 'int_t', 't': t})
+    n = 0
+    for x in t:
+        n = n * 1000 + x
+    pool.append({'op': 'str', 'n': n})
+    calls = []
+    for _ in range(rng.randrange(4, 11)):
+        if calls and rng.random() < 0.3:
+            calls.append(dict(calls[-1]))
+        else:
+            calls.append(dict(rng.choice(pool)))
+    return {'prop': 'seq', 'fn': 'seq', 'pred': None, 'comps': None, 'malformed': None, 'calls': calls}
+
+
+def seq_line(case, strings):
+    parsed, rank, bad = parse_versions(strings)
+    return req('predseq', hexs(case['pred']), ','.join(hexs(c['ver']) for c in case['calls']),
+               dict_field(parsed, rank)), parsed, rank, bad
+
+
+def confirm_and_shrink_seq(ctx, case, budget=25.0):
+    """re-run a failing sequence in a fresh interpreter and shrink it there (bounded wall clock);
+    returns (case, what) or None when the fresh interpreter does not reproduce it"""
+    import time
+    t_end = time.time() + budget
+    why = judge_calls(case, run_calls_fresh(case))
+    if not why:
+        return None
+
+    def still(sub):
+        if time.time() > t_end:
+            return False
+        return judge_calls(dict(case, calls=sub), run_calls_fresh(dict(case, calls=sub), timeout=10)) is not None
+    calls = common.shrink_list(case['calls'], still, max_steps=60)
+    small = dict(case, calls=calls)
+    return small, judge_calls(small, run_calls_fresh(small)) or why
+
+
+# --------------------------------------------------------------------------
 # correspondence
 
 def correspondence(ctx):
@@ -869,7 +1110,7 @@ def correspondence(ctx):
         cases.append(({'fn': 'str', 'n': n}, 'str/negative'))
     for kind in sorted(OTHER_INPUTS):
         cases.append(({'fn': 'int_o', 'kind': kind}, 'int_o/' + kind))
-    replies = ctx.driver.ask_many([line_conv(c) for c, _ in cases])
+    conv_replies = replies = ctx.driver.ask_many([line_conv(c) for c, _ in cases])
     for (case, tag), rep in zip(cases, replies):
         ctx.evaluations += 1
         ctx.count('corr/' + tag)
@@ -884,6 +1125,10 @@ def correspondence(ctx):
             ctx.sample({'case': case, 'implementation': impl}, 3)
         if impl != rep:
             out.append(Disagreement(case, impl, rep))
+        elif ctx.evaluations % 4 == 0 and not (case['fn'] == 'str' and case['n'] < 0):
+            again_now = impl_conv(case)         # the same call once more, immediately
+            if again_now != rep:
+                out.append(Disagreement(dict(case, repeat='immediate'), again_now, rep))
 
     # ---- the clause grammar on single pieces, through the public API ----------------
     # the model says how it reads the piece; the implementation is then observed from outside:
@@ -977,6 +1222,59 @@ def correspondence(ctx):
                     'implementation': impl}, 6)
         if not same_outcome(impl, rep):
             out.append(Disagreement(case, impl, rep))
+        elif case['fn'] == 'compat' and ctx.evaluations % 4 == 0:
+            again_now = impl_compat(case)
+            if again_now != rep:
+                out.append(Disagreement(dict(case, repeat='immediate'), again_now, rep))
+    # ---- history independence: repeats of the calls above, now and after everything else ----------
+    for (case, tag), rep in list(zip(cases, conv_replies))[::5]:
+        if case['fn'] == 'str' and case['n'] < 0:
+            continue
+        ctx.evaluations += 1
+        ctx.count('corr/repeat/' + case['fn'])
+        impl = impl_conv(case)
+        if impl != rep:
+            out.append(Disagreement(dict(case, repeat='delayed'), impl, rep))
+    for case, strings, rep in list(zip(vcases, infos, replies))[::5]:
+        if case['fn'] == 'compat':      # (predicates are repeated on ONE object in the sequences below)
+            ctx.evaluations += 1
+            ctx.count('corr/repeat/compat')
+            impl = impl_compat(case)
+            if impl != rep:
+                out.append(Disagreement(dict(case, repeat='delayed'), impl, rep))
+
+    # ---- one predicate object, many questions: call by call against the (stateless) model ----------
+    seqs = [gen_sat_sequence(rng) for _ in range(1500 if ctx.quick else 20000)]
+    sinfo, slines = [], []
+    rx = clause_regex()
+    for case in seqs:
+        strings = [c['ver'] for c in case['calls']]
+        for piece in (case['pred'].split(',') if rx is not None else []):
+            mm = rx.match(piece)
+            if mm and mm.lastindex == 2:
+                strings.append(mm.group(2))
+        strings = list(dict.fromkeys(strings))
+        sinfo.append(strings)
+        slines.append(seq_line(case, strings)[0])
+    sreplies = ctx.driver.ask_many(slines)
+    again = [i for i, r in enumerate(sreplies) if r.startswith('need:')]
+    for i in again:
+        sinfo[i] = sinfo[i] + [common.unhexs(h) for h in sreplies[i][5:].split(',')]
+    if again:
+        for i, r in zip(again, ctx.driver.ask_many([seq_line(seqs[i], sinfo[i])[0] for i in again])):
+            sreplies[i] = r
+    for case, strings, rep in zip(seqs, sinfo, sreplies):
+        ctx.evaluations += 1
+        outs = run_calls(case)
+        impl = ';'.join(o['out'] for o in outs)
+        ctx.count('corr/seq/' + ('init-error' if impl.startswith('init:') else 'len%d' % min(len(outs), 9)))
+        model = rep.split('\t')[0]
+        if not impl.startswith('init:'):
+            ctx.nontrivial(('seq', case['pred'], tuple(c['ver'] for c in case['calls'])))
+        ctx.sample({'case': {'pred': case['pred'], 'calls': [c['ver'] for c in case['calls']]},
+                    'implementation': impl}, 8)
+        if impl != model:
+            out.append(Disagreement(case, impl, model))
     if _wb.get('pairs', 0) is None:
         ctx.notes.append('no attribute of VersionPredicate holds (operator text, Version) pairs: parsed clauses were '
                          'compared through satisfied_by only')
@@ -1055,6 +1353,8 @@ def oracle(case):
     """None, or a sentence saying how the property fails on the implementation for this case"""
     m = vu()
     k = case['prop']
+    if k == 'seq':
+        return judge_calls(case, run_calls(case))
     if k == 'spec':
         s = case['s']
         verdict = spec_verdict(s)
@@ -1170,6 +1470,8 @@ def in_domain(t):
 
 
 def gen_search_case(rng):
+    if rng.random() < 0.2:
+        return gen_sat_sequence(rng) if rng.random() < 0.6 else gen_call_sequence(rng)
     x = rng.random()
     if x < 0.12:
         return {'prop': 'roundtrip', 't': comp_tuple(rng, in_domain=True)}
@@ -1238,6 +1540,8 @@ def seeds_to_cases(seeds):
                 t.insert(0, n % 1000)
                 n //= 1000
             out.append({'prop': 'roundtrip', 't': t})
+        elif fn == 'seq':
+            out.append(dict(s, prop='seq'))
         elif fn == 'compat':
             out.append(dict(s, prop='compat'))
         elif fn == 'pred' and 'comps' in s:
@@ -1329,6 +1633,11 @@ def search(ctx, seeds, full=False):
         for base in ('1', '1.3', '10.0.3'):
             for tail in (mk, mk + '1', mk.upper() + '1', '.' + mk, mk + '.1'):
                 todo.append({'prop': 'spec', 's': base + tail})
+    V1 = lambda *rel: {'epoch': 0, 'release': list(rel), 'pre': None, 'post': None, 'dev': None, 'local': None}
+    for op, b in (('<', V1(2, 0, 0)), ('>=', V1(1, 5)), ('!=', V1(1, 5)), ('==', V1(1, 5))):
+        cands = [V1(1, 0, 0), V1(2, 0, 0), V1(2, 0, 0), V1(1, 5), V1(1, 5), V1(1, 0, 0), V1(3), V1(3), V1(1, 5)]
+        todo.append({'prop': 'seq', 'fn': 'seq', 'pred': op + render_v(b), 'comps': [[op, b]], 'malformed': None,
+                     'calls': [{'op': 'sat', 'ver': render_v(c), 'ver_struct': c} for c in cands]})
     todo += [gen_search_case(rng) for _ in range(n)]
     n_seed_cases = len(seeds_to_cases(seeds[:300]))
     for case in todo:
@@ -1351,6 +1660,20 @@ def search(ctx, seeds, full=False):
             kind = case['prop'] + ('/malformed' if case.get('malformed') else '')
             if kind in kinds and len(fails) >= 1:
                 continue
+            if case['prop'] == 'seq':
+                # history dependence: only what a fresh interpreter reproduces is reported
+                got = confirm_and_shrink_seq(ctx, case)
+                ctx.count('search/seq-confirmed' if got else 'search/seq-not-reproduced-fresh')
+                if not got:
+                    if ctx.hist.get('search/seq-not-reproduced-fresh', 0) <= 3:
+                        ctx.notes.append('search: a sequence failed in-process (%s) but not in a fresh interpreter; '
+                                         'not reported' % why[:200])
+                    continue
+                kinds.add(kind)
+                fails.append(Failure(got[0], {'kind': kind, 'what': got[1], 'confirmed': 'fresh interpreter'}))
+                if len(fails) >= 5:
+                    break
+                continue
             kinds.add(kind)
             small = shrink(case)
             fails.append(Failure(small, {'kind': kind, 'what': oracle(small) or why}))
@@ -1368,6 +1691,8 @@ def replay(ctx, payload):
         print(payload.get('no_longer_checks'))
         return 0
     rc = 0
+    if case.get('prop') == 'seq' or case.get('fn') == 'seq':
+        return replay_seq(ctx, case)
     if case.get('prop'):
         why = oracle(case)
         print('case:', {k: v for k, v in case.items() if not k.endswith('struct')})
@@ -1378,6 +1703,27 @@ def replay(ctx, payload):
     else:
         rc = show_both(ctx, case)
     return rc
+
+
+def replay_seq(ctx, case):
+    outs = run_calls_fresh(case) or run_calls(case)
+    print('predicate:', repr(case.get('pred')))
+    model = None
+    if case.get('pred') is not None and all(c['op'] == 'sat' for c in case['calls']):
+        strings = list(dict.fromkeys(c['ver'] for c in case['calls']))
+        for _ in range(2):
+            rep = ctx.driver.ask(seq_line(case, strings)[0])
+            if not rep.startswith('need:'):
+                break
+            strings = strings + [common.unhexs(h) for h in rep[5:].split(',')]
+        model = rep.split('\t')[0].split(';')
+    for k, c in enumerate(case['calls']):
+        o = outs[k]['out'] if k < len(outs) else (outs[0]['out'] if outs else '?')
+        print('call %d  %-60s implementation: %-22s%s' % (
+            k + 1, _show_call(c), o, '' if model is None else ' model: ' + (model[k] if k < len(model) else model[0])))
+    why = judge_calls(case, outs)
+    print('property oracle on the implementation (fresh interpreter):', why or 'holds')
+    return 1 if why else 0
 
 
 def seeds_to_model_cases(case):
